@@ -594,7 +594,18 @@ def eligible(c, cls, fields_decl):
             # are generated like `self` (fields + fixups); every other object / opaque parameter stays excluded
             if isinstance(ty, ast.Call) and isinstance(ty.func, ast.Name) and ty.func.id == 'Obj' and len(ty.args) == 1 \
                     and isinstance(ty.args[0], ast.Constant) and ty.args[0].value in ('Encoder', 'Decoder'):
-                continue
+                # ... provided the receiver has no child type objects at all (the real code would call into them)
+                child = None
+                if cls is not None:
+                    for k2 in reversed(cls.__mro__):
+                        if k2.__module__.startswith('asn1tools'):
+                            for fname, fty in fields_decl.get((class_relpath(k2), k2.__name__), {}).items():
+                                if any(isinstance(n_, ast.Call) and isinstance(n_.func, ast.Name) and n_.func.id in ('Obj', 'ObjSeq')
+                                       for n_ in ast.walk(fty)):
+                                    child = fname
+                if child is None:
+                    continue
+                return False, 'abstract child object %s' % child
             return False, 'abstract/opaque parameter %s' % p
     if cls is not None:
         # only the fields the clauses mention matter
